@@ -22,6 +22,12 @@ CHECKS = {
          "bounded exhaustive exploration of the ledger graph on the real code; differential twin equality"),
  "C11": ("every ledger vs the ledger minus each CAPRETURN/ACCUMULATION/DIVIDEND event: exact expenditure shift, later acquisitions untouched, cancelling pairs, no negative cost, refusal brackets",
          "bounded exhaustive exploration of the ledger graph on the real code; with/without-event differential"),
+ "C13": ("deviation-bounded exploration of DSL texts: every set of <= k lexical deviations at distinct sites of 23 canonical texts, and every single-token corruption under LF/CRLF/CR, against an independent recogniser of the README grammar; cgt-tool parse on deviated files",
+         "deviation-bounded exhaustive exploration of input texts on the real parser vs reference recogniser"),
+ "C14": ("all single- and two-field departures over extreme value alphabets for the seven kinds, every date 0000-01-01..9999-12-31, every ISO code, every `years` ledger: DSL and JSON round trips, idempotence, report equality; MCP/CLI front-ends on a subset",
+         "exhaustive enumeration of bounded value alphabets on the real writer/parser/serialiser; round-trip identity"),
+ "C15": ("all token sequences <= L over a 30-token alphabet and all ordered ledgers <= k events over a 7-magnitude alphabet at 5 calendar positions through parse->validate->calculate->format under catch_unwind in watchdog-guarded child processes; CLI fault menu (one process per cell); validator truth table",
+         "exhaustive enumeration of bounded input sequences and of a fault menu on the real code; no panic/abort/hang, atomic failure"),
  "C12": ("edges prefix -> prefix+suffix: every accepted prefix x every continuation of <= k events dated T+31/T+32/T+45; earlier disposals and year totals unchanged, refusals caused by appended dates only",
          "exhaustive enumeration of prefix/continuation edges of the bounded ledger graph on the real code"),
 }
